@@ -207,7 +207,7 @@ func TestC18Race(t *testing.T) {
 							atomic.AddInt64(&snapshots, 1)
 						}
 						// every Snapshot leaks the library's never-closed s2 writers (~1 MB): keep the rate low
-						time.Sleep(20 * time.Millisecond)
+						time.Sleep(60 * time.Millisecond)
 					case wRestore:
 						if snap := lastSnap.Load().([]byte); len(snap) > 0 {
 							d := c18Collection(keyed)
